@@ -33,7 +33,11 @@ func c10Concurrent(c *Ctx, up *world.Upstream) {
 	maxCost := 1000
 	if wide {
 		vrt.Enabled = true
-		defer func() { vrt.Enabled = false }()
+		// the session path's packages at statement level: a shared object may be reached through a local
+		// variable (a hasher or buffer taken out of a shared container and used over several statements)
+		vrt.AllStatements = map[string]bool{"pkg/encryption": true, "pkg/sessions/cookie": true, "pkg/sessions/persistence": true, "pkg/sessions/redis": true,
+			"pkg/apis/sessions": true, "pkg/cookies": true}
+		defer func() { vrt.Enabled = false; vrt.AllStatements = nil }()
 		maxCost = 1
 		if !c.Quick() {
 			maxCost = 2
@@ -89,7 +93,7 @@ func c10Concurrent(c *Ctx, up *world.Upstream) {
 			}
 			return s.Run(), results
 		}
-		stats := explore.Run(explore.Config{MaxCost: maxCost, Deadline: c.Deadline, MaxExecs: 2000000, Shard: c.Shard, Shards: c.Shards, ShardDepth: 2}, func(x *explore.Exec, own bool) {
+		stats := explore.Run(explore.Config{MaxCost: maxCost, Deadline: c.Deadline, MaxExecs: 2000000, Shard: c.Shard, Shards: c.Shards, ShardDepth: 2, TolerateDivergence: wide, MaxDivergences: 16}, func(x *explore.Exec, own bool) {
 			out, results := body(x)
 			if !own {
 				return
